@@ -182,6 +182,16 @@ theorem profileOfRow_some {names : List (String × String)} {r : PlayRow} {P : P
       hg.2.2.1, hg.2.2.2, rfl⟩
   · cases h
 
+/-- The set-compression id of a profile built from a row is the id its table has under that name. -/
+theorem profileOfRow_setComp {names : List (String × String)} {r : PlayRow} {P : Profile}
+    (h : profileOfRow names r = some P) : P.setCompressionCb = setCompOf P := by
+  unfold profileOfRow at h
+  simp only [Option.bind_eq_bind, Option.bind_eq_some_iff] at h
+  obtain ⟨ka, -, pos, -, disc, -, kl, -, fl, -, kaSb, -, pl, -, tc, -, h⟩ := h
+  split at h
+  · cases h; rfl
+  · cases h
+
 theorem kaLongOfProbe_some {pr : Gen.PlayProbe} {b : Bool} (h : kaLongOfProbe pr = some b) :
     b = (pr.kaRead == 1) ∧ pr.kaWrite = pr.kaRead ∧ (pr.kaRead = 0 ∨ pr.kaRead = 1) := by
   unfold kaLongOfProbe at h
@@ -545,17 +555,11 @@ theorem lookup_mem {β : Type} : ∀ (l : List (Nat × β)) (k : Nat) (v : β),
       rw [this] at h
       exact List.mem_cons_of_mem _ (lookup_mem l k v h)
 
-/-- A profile that knows no "set compression" packet: no well-formed packet is one. -/
-theorem wf_not_setCompression (P : Profile) (h : setCompOf P = none) (p : SrvPkt)
+/-- A profile without a "set compression" id: no well-formed packet is one. -/
+theorem wf_not_setCompression (P : Profile) (h : P.setCompressionCb = none) (p : SrvPkt)
     (hwf : p.wf P = true) : isSetCompression p = false := by
   cases p with
-  | other pid name fields =>
-    simp only [SrvPkt.wf, Bool.and_eq_true, beq_iff_eq] at hwf
-    have hm := lookup_mem _ _ _ hwf.2
-    unfold setCompOf at h
-    simp only [Option.map_eq_none_iff] at h
-    have := List.find?_eq_none.mp h _ hm
-    simpa [isSetCompression] using this
+  | setCompression t => simp [SrvPkt.wf, h] at hwf
   | _ => rfl
 
 theorem rowOk_facts {r : PlayRow} {P : Profile} (h : rowOk r P = true) :
